@@ -98,7 +98,8 @@ def corr (prop unitsPath runPath : String) : IO UInt32 := do
                   st := { st with msgs := st.msgs.push s!"MISMATCH {name} f64 comp {j} in {ins} model {m.toBits} glm {g.toBits}" }
               match sp with
               | some (f, ks) =>
-                if (f.kind == .poly || f.kind == .syn) && !f.treeMode then
+                -- only where double arithmetic is exact: integer inputs, spec a polynomial without calls
+                if (f.kind == .poly || f.kind == .syn) && !f.treeMode && (f.spec ks j).isPoly then
                   let s := (f.spec ks j).eval f64Ops env
                   let g := if f.isPlain then g else (f.post ks (fun i => .lit (Float.ofBits (outs.getD i 0).toUInt64).toInt64.toInt 1) j).eval f64Ops env
                   st := { st with specChecked := st.specChecked + 1 }
